@@ -88,6 +88,29 @@ Proof.
     apply negb_true_iff, Nat.eqb_neq. done.
   - rewrite getev_setev_ne by done. by rewrite Hf, Hin.
 Qed.
+(* the owner of a oneshot receiver polls again: its waker is replaced *)
+Lemma unfreg_rereg_self s e a : (getev s e).(fired) = false ->
+  unfreg (setev s e (getev s e <| wakers := WTask a :: List.filter (fun w => negb (is_task a w)) (getev s e).(wakers) |>)) e (WTask a) = true.
+Proof.
+  intros Hf. unfold unfreg. rewrite getev_setev_eq by (by apply getev_fired_range). cbn. rewrite Hf. cbn. apply bool_decide_eq_true. left.
+Qed.
+Lemma unfreg_rereg_other s e a e' c : c <> a -> unfreg s e' (WTask c) = true ->
+  unfreg (setev s e (getev s e <| wakers := WTask a :: List.filter (fun w => negb (is_task a w)) (getev s e).(wakers) |>)) e' (WTask c) = true.
+Proof.
+  intros Hca. unfold unfreg. intros [Hf Hin]%andb_true_iff. apply negb_true_iff in Hf. destruct (decide (e' = e)) as [->|Hne].
+  - rewrite getev_setev_eq by (by apply getev_fired_range). cbn. rewrite Hf. cbn. apply bool_decide_eq_true in Hin.
+    apply bool_decide_eq_true. right. apply elem_of_list_In, filter_In. split; [by apply elem_of_list_In|]. cbn.
+    apply negb_true_iff, Nat.eqb_neq. done.
+  - rewrite getev_setev_ne by done. by rewrite Hf, Hin.
+Qed.
+Lemma unfreg_rereg_mono s e a e' c : unfreg s e' (WTask c) = true ->
+  unfreg (setev s e (getev s e <| wakers := WTask a :: List.filter (fun w => negb (is_task a w)) (getev s e).(wakers) |>)) e' (WTask c) = true.
+Proof.
+  intros Hu. destruct (decide (c = a)) as [->|Hne]; [|by apply unfreg_rereg_other].
+  destruct (decide (e' = e)) as [->|Hne].
+  - apply unfreg_rereg_self. unfold unfreg in Hu. apply andb_true_iff in Hu as [Hf _]. by apply negb_true_iff in Hf.
+  - unfold unfreg in *. by rewrite getev_setev_ne.
+Qed.
 (* the event fires: a registered task waker is now in flight on the firing thread *)
 Lemma unfreg_fired s s' a old post e e' c :
   stacks s !! a = Some old -> stacks s' = <[a := wake_frames (rev (getev s e).(wakers)) ++ post]> (stacks s) ->
@@ -162,7 +185,7 @@ Section YT.
        [ intros Ht; rewrite (tokb_toks s s1 c0 ltac:(solve_toks)); exact Ht
        | rewrite !posb_true; repeat case_bool_decide; simplify_eq; lia
        | rewrite !posb_true; repeat case_bool_decide; simplify_eq; lia
-       | intros e0 Hu; left; first [ by apply unfreg_reg_mono | by apply unfreg_done_task | by do 2 apply unfreg_reg_mono ] ] end).
+       | intros e0 Hu; left; first [ by apply unfreg_reg_mono | by apply unfreg_done_task | by do 2 apply unfreg_reg_mono | by apply unfreg_rereg_mono ] ] end).
     (* a cell fires *)
     all: try (lazymatch goal with |- forall c fr, _ -> _ -> yob _ c fr = true -> yob ?s1 c fr = true =>
        lazymatch s1 with context [Build_evcell true nil] => idtac end;
@@ -219,7 +242,7 @@ Section YT.
       + intros e0 Hu. left. match goal with |- unfreg ?s1 _ _ = true => rewrite (unfreg_evs s s1 e0 _ eq_refl) end. exact Hu.
     - (* YPrecv registers the task waker with queue_ready *)
       intros fr [->|Hin]%elem_of_cons; [right|left; by right]. cbn. unfold twr. apply orb_true_iff. right.
-      change (unfreg (setstack ?x _ _) ?e ?w) with (unfreg x e w). by apply unfreg_register.
+      change (unfreg (setstack ?x _ _) ?e ?w) with (unfreg x e w). by apply unfreg_rereg_self.
     - (* the user future registers with an event *)
       intros fr [->|Hin]%elem_of_cons; [right|left; by right]. cbn. unfold twr. apply orb_true_iff. right.
       change (unfreg (setstack ?x _ _) ?e0 ?w) with (unfreg x e0 w). by apply unfreg_register.
